@@ -321,7 +321,9 @@ class FieldMappingTransformationBase(DetectionItemTransformation):
                         dataclasses.replace(detection_item, field=field, auto_modifiers=False)
                         for field in mapping
                     ],
-                    item_linking=ConditionOR,
+                    # each of the new items is negated if the detection item is negated:
+                    # not (a or b) = not a and not b
+                    item_linking=ConditionAND if detection_item.negated else ConditionOR,
                 )
         if field_match or fieldref_match:  # field name was changed or field reference was mapped
             if self._pipeline is not None and mapping is not None:
